@@ -101,6 +101,14 @@ CHECKS = {
             "300 (quick) generated queries over a fixed schema and three data sets are fixed with all rules except ST06 and CV05; the SQL of every adopted fix batch is executed and must return the same multiset of rows; a violation names the rule that introduced it.",
             "Exploration: the oracle is SQLite, the spec contributes the per-step contract and the exception list. Known findings: ST07 USING->ON with SELECT *, ST04 `ELSE 3END`, RF03 on ORDER BY positions (sqlite), CV12 after ST07. Notes: notes/C16.md.",
             "DESIGN.md §5 C16"),
+    "C27": (MC, "TLA+ model of configuration layering and per-file isolation (spec/ConfigLayers.tla: defaults < user < cwd..file chain < extra file < overrides < inline; transcription of nested_combine order, make_child_from_path, inline processing on a copy), TLC exhaustive; spec->code replay on materialised hierarchies; ConfigLayersTrace validation of file histories",
+            "Every assignment of 2 keys to the layers for 2-3 files in a 2-level tree is materialised on disk (ini and toml/cfg variants, HOME redirected, --config, overrides, inline directives) and observed through the config the pipeline actually uses and through rule behaviour; the effective value must be the last setter's and must not depend on which files were processed before (both lint_paths and lint_string entry styles, permuted orders).",
+            "Config between HOME and cwd is deliberately left out (ambiguous in the statement). Known finding: a config above cwd but outside HOME is honoured. Notes: notes/C27.md.",
+            "DESIGN.md §5 C27"),
+    "C32": (MC, "TLA+ model of process-level shared state and operation histories (spec/Session.tla), TLC enumerates all histories to the bound; spec->code: each history run in one fresh process and compared per operation with fresh-process baselines (SessionTrace); strace of CLI lint/parse/render for the read-only clause",
+            "All histories of length <= 2 (quick) / 3 (thorough) over ~12 operations chosen to touch each piece of shared state (Jinja blocks and loops, disable_noqa_except, nested and inline config, output formats, parse errors, variants) give the same violations, parse records, rendered text and fixed strings as the same operation in a fresh process (second baseline under another PYTHONHASHSEED); lint/parse/render never open an input for writing, rename, unlink, chmod or change content, inode or mtime.",
+            "Results are compared by value; internal state that does not change results is reported as DRIFT. Notes: notes/C32.md.",
+            "DESIGN.md §5 C32"),
     "C20": (MC, "TLA+ contract + transcription of IgnoreMask (spec/Noqa.tla), TLC exhaustive; spec->code replay of every enumerated case; code->spec trace validation of generated files (NoqaTrace)",
             "TLC shows the transcribed masking algorithm refines the noqa contract for every directive list/violation set in scope, every such case is replayed into the real IgnoreMask, and recorded lint runs of generated files (all reference forms, tree and source-fallback masks, disable_noqa) are validated against the same contract.",
             "Scope: 3 lines, <=2 (quick) / <=3 (thorough) directives, <=2 violations, codes {A,B,PRS}. Trusted: object builders, file concretiser, code mapping LT01/CP01/PRS. `used` of enable directives and of several directives hiding the same violation is left unconstrained (ambiguous in the statement).",
